@@ -50,6 +50,10 @@ let methods_of_spec (ms : Sx.t) : Datatypes.nat list =
   | "any", [] -> List.init 9 nat_of_int
   | "m", [Sx.A name] -> (match method_index (String.uppercase_ascii name) with Some i -> [nat_of_int i] | None -> [])
   | "m", [] -> []
+  | "list", [l] ->      (* Routes(path, "A,B"): split on commas, trim blanks; one unknown entry refuses the registration *)
+      let parts = List.map String.trim (String.split_on_char ',' (ocaml_string_of_str (str l))) in
+      let idx = List.map (fun n -> method_index (String.uppercase_ascii n)) parts in
+      if List.mem None idx then [] else List.filter_map (fun i -> Option.map nat_of_int i) idx
   | _ -> failwith "method spec"
 
 (* a header key with an empty list of values reads as absent (http.Header.Get returns "") *)
@@ -128,7 +132,26 @@ let rec adm_params (ks : kind list) (segs : coq_N list list) : (coq_N list * coq
 
 let norm ps = List.sort compare (List.map (fun (k, v) -> (ocaml_string_of_str k, ocaml_string_of_str v)) ps)
 
+(* policy same: after a rejected registration the history goes on with the SAME instance.  AddRoute is not atomic
+   (known finding F11: sub-trees of a rejected route stay behind and may change what later registrations are
+   told), so such a history is not compared with the atomic model; what is judged is the part of C08 that F11
+   leaves intact: a registration that failed never answers a request *)
+let eval_keep (input : Sx.t) (obs : Sx.t) : Sx.t list * bool * bool * string =
+  let ops = Sx.args (Sx.field "ops" input) and outs = Sx.args (Sx.field "outs" obs) in
+  let attempt = ref 0 and rejected = ref [] and ok = ref true and seen_rej_then_req = ref false in
+  List.iteri (fun i op ->
+    let o = (try List.nth outs i with _ -> Sx.A "missing") in
+    match Sx.tag op with
+    | "reg" -> (if o <> Sx.L [Sx.A "ok"] then rejected := !attempt :: !rejected); incr attempt
+    | "req" -> (if !rejected <> [] then seen_rej_then_req := true;
+                match Sx.tag o, Sx.args o with
+                | "found", at :: _ -> if List.mem (Sx.int_of at) !rejected then ok := false
+                | _ -> ())
+    | _ -> ()) ops;
+  (Sx.args obs, !ok, !seen_rej_then_req, "same-instance-after-rejection")
+
 let eval (prop : string) (input : Sx.t) (obs : Sx.t) : Sx.t list * bool * bool * string =
+  if (match Sx.field_opt "policy" input with Some p -> Sx.args p = [Sx.A "same"] | None -> false) then eval_keep input obs else
   let compile = compile_of input in
   let h = { st = rinit; attempt = 0; rid_of_attempt = []; accepted = []; named = [] } in
   let outs_obs = Sx.args (Sx.field "outs" obs) in
